@@ -305,10 +305,23 @@ func TestC18(t *testing.T) {
 						c = []string{"ZADD", k, pick("score", scores), m}
 					case 2:
 						c = []string{"ZADD", k, pick("score", scores), m, pick("score", scores), pick("m2", members)}
+						if rapid.IntRange(0, 3).Draw(rt, "bulk") == 0 {
+							// a sorted set of dozens of members in one command (containers may switch representation with size)
+							c = []string{"ZADD", k}
+							for j, cnt := 0, rapid.SampledFrom([]int{31, 32, 33, 40, 130}).Draw(rt, "zbulk"); j < cnt; j++ {
+								c = append(c, strconv.Itoa(j%7), "b"+strconv.Itoa(j))
+							}
+						}
 					case 3:
 						c = []string{"ZINCRBY", k, pick("score", scores), m}
 					case 4:
 						c = []string{pick("zq", []string{"ZSCORE", "ZREM"}), k, m}
+						if rapid.IntRange(0, 3).Draw(rt, "bulkmember") == 0 {
+							// re-score one of the bulk members and ask for its score (before and after)
+							bm := "b" + strconv.Itoa(rapid.IntRange(0, 32).Draw(rt, "bm"))
+							p.Cmds = append(p.Cmds, cmd("ZSCORE", k, bm), cmd("ZADD", k, pick("score", scores), bm))
+							c = []string{"ZSCORE", k, bm}
+						}
 					case 5:
 						c = []string{"ZRANGE", k, strconv.Itoa(rapid.IntRange(-4, 4).Draw(rt, "s")), strconv.Itoa(rapid.IntRange(-4, 4).Draw(rt, "e"))}
 						if rapid.Bool().Draw(rt, "rev") {
@@ -330,7 +343,11 @@ func TestC18(t *testing.T) {
 							c = append(c, "WITHSCORES")
 						}
 						if rapid.Bool().Draw(rt, "lim") {
-							c = append(c, "LIMIT", strconv.Itoa(rapid.IntRange(0, 4).Draw(rt, "off")), strconv.Itoa(rapid.IntRange(-1, 4).Draw(rt, "cnt")))
+							cnt := strconv.Itoa(rapid.IntRange(-1, 4).Draw(rt, "cnt"))
+							if rapid.IntRange(0, 4).Draw(rt, "hugecnt") == 0 {
+								cnt = pick("hugecntv", []string{"9223372036854775807", "9223372036854775806", "4611686018427387904", "2147483648"})
+							}
+							c = append(c, "LIMIT", strconv.Itoa(rapid.IntRange(0, 4).Draw(rt, "off")), cnt)
 						}
 					case 7:
 						c = []string{"ZREVRANGE", k, strconv.Itoa(rapid.IntRange(-4, 4).Draw(rt, "s")), strconv.Itoa(rapid.IntRange(-4, 4).Draw(rt, "e"))}
